@@ -730,11 +730,11 @@ func mdDocActions(relFile string) ([]string, error) {
 func init() {
 	Register(&Rule{
 		ID: "C49", Section: "5 C49",
-		Technique: "table agreement over command tables recovered from SSA (Cmd equality tests, map-literal keys, constant blocks, Markdown tables) plus feasible-path enumeration of the loaders' parameter-count checks matched against every constant Params[k] index reached by each command; loop-header-phi analysis of search-and-remove loops over the raw query; interprocedural backward data-flow slices (decoded-path taint into the redirect Location, key agreement between url.Values and RawQuery edits)",
+		Technique: "table agreement over command tables recovered from SSA (Cmd equality tests, map-literal keys, constant blocks, Markdown tables) plus feasible-path enumeration of the loaders' parameter-count checks matched against every constant Params[k] index reached by each command; loop-header-phi analysis of search-and-remove loops over the raw query; interprocedural backward data-flow slices (decoded-path taint into the redirect Location, key agreement between url.Values and RawQuery edits in both directions); compile-time evaluation (constant folding over SSA) of the header-value scanner on the keys of the variable table",
 		Meta: core.Meta{
 			Level:       "other",
-			Explanation: "Decides, for bfe_basic/action (used by mod_rewrite), mod_header and mod_redirect: (1) every Action* command constant has an executing arm in Action.Do and is accepted by ActionFileCheck; every command accepted by a module's ActionFileCheck has an executing arm (Action.Do; mod_header actionConvert + HeaderActionDo/Req|RspCookieActionDo; mod_redirect EXCLUSIVE_ACTIONS + redirectExclusiveActionDo) and no checker lets an unlisted command through; (2) allow-lists (mod_rewrite, mod_prison) only name commands the shared checker accepts; (3) every action named in the Actions table of docs/en_us/modules/{mod_rewrite,mod_header,mod_redirect} is allowed/accepted and executed by that module; (4) for every constant index Params[k] in those packages, each command (or HEADER_MOD sub-command) that can reach the site - from the Cmd tests controlling it and, interprocedurally, its callers - is only accepted with more than k parameters (parameter counts are read off the feasible success paths of the checker); QUERY_ADD needs a non-empty even count because ReqQueryAdd slices off a leading '&'; (5) the checks are on the load path: Action.UnmarshalJSON assigns only after ActionFileCheck returned nil, the mod_header/mod_redirect loaders convert only after their ConfCheck (which reaches ActionFileCheck) returned nil, mod_rewrite rejects commands missing from its allow-list; (6) wiring: each command's arm in Action.Do, HeaderActionDo, Req/RspCookieActionDo and redirectExclusiveActionDo calls the executor that implements the documented action (reviewed command -> function table) and passes Params in their configured order, and mod_header applies REQ_* actions to the request header and RSP_* actions to the response header (getHeaderType, getHeader, processCookie, the two handlers).; (7) effects that have a structural necessary condition - repeated keys: QUERY_RENAME, QUERY_DEL and QUERY_DEL_ALL_EXCEPT edit every occurrence of the key in URL.RawQuery: a removal s[:p]+s[q:] whose position comes from a search over s is iterated (its result flows back to the searched string on a back edge, in place or through a helper), every exit of that loop is computed from the current string, the next search starts at 0 or at most at p (never past the place where the following pair now starts), the first search starts at 0, search/replace patterns begin with the pair delimiter '&', and strings.Replace has a negative count (rawquery-all-occurrences); each key changed in the parsed query (url.Values Del/Set/Add/index store) is a value the string stored to URL.RawQuery is computed from, so the two representations are edited with the same key (query-raw-sync); redirect Location: no value stored to RedirectInfo.Url anywhere in the program is computed (data flow through module helpers, parameters followed to their call sites) from the decoded URL.Path or url.PathUnescape/QueryUnescape unless it passes an escaper (redirect-no-decoded-path), and URL_PREFIX_ADD / SCHEME_SET store the configured string first and the escaped original URI of this request (URL.RequestURI(), or EscapedPath() with RawQuery) last, SCHEME_SET with the request's host in between (redirect-original-uri). Not covered: the remaining string semantics of the actions (offsets inside a removal such as where the value ends, host/path edits, percent-encoded or '='-less keys in QUERY_DEL* - known not to be matched by the raw edit, ReqHostSuffixReplace reading URL.Host, the URL built by bfe_server.Redirect for relative Locations), raw-query editors rewritten in a form other than search-and-remove / strings.Replace are reported as not followed, variable expansion in header values, that mod_header's actionConvert keeps the checked parameter count (reviewed: it never shortens Params).",
-			RuleText:    "obligations = each command x executor wiring; each header-direction selector; each Action* constant x {Do arm, checker}; each accepted command x executor tables; each allow-list key; each documented action; each (function, Params[k], reaching command set); each loader's check-before-use; each key-editing query command x all-occurrences constructs; each parsed-query mutation x raw store; each store to RedirectInfo.Url; each original-uri redirect command",
+			Explanation: "Decides, for bfe_basic/action (used by mod_rewrite), mod_header and mod_redirect: (1) every Action* command constant has an executing arm in Action.Do and is accepted by ActionFileCheck; every command accepted by a module's ActionFileCheck has an executing arm (Action.Do; mod_header actionConvert + HeaderActionDo/Req|RspCookieActionDo; mod_redirect EXCLUSIVE_ACTIONS + redirectExclusiveActionDo) and no checker lets an unlisted command through; (2) allow-lists (mod_rewrite, mod_prison) only name commands the shared checker accepts; (3) every action named in the Actions table of docs/en_us/modules/{mod_rewrite,mod_header,mod_redirect} is allowed/accepted and executed by that module; (4) for every constant index Params[k] in those packages, each command (or HEADER_MOD sub-command) that can reach the site - from the Cmd tests controlling it and, interprocedurally, its callers - is only accepted with more than k parameters (parameter counts are read off the feasible success paths of the checker); QUERY_ADD needs a non-empty even count because ReqQueryAdd slices off a leading '&'; (5) the checks are on the load path: Action.UnmarshalJSON assigns only after ActionFileCheck returned nil, the mod_header/mod_redirect loaders convert only after their ConfCheck (which reaches ActionFileCheck) returned nil, mod_rewrite rejects commands missing from its allow-list; (6) wiring: each command's arm in Action.Do, HeaderActionDo, Req/RspCookieActionDo and redirectExclusiveActionDo calls the executor that implements the documented action (reviewed command -> function table) and passes Params in their configured order, and mod_header applies REQ_* actions to the request header and RSP_* actions to the response header (getHeaderType, getHeader, processCookie, the two handlers).; (7) effects that have a structural necessary condition - repeated keys: QUERY_RENAME, QUERY_DEL and QUERY_DEL_ALL_EXCEPT edit every occurrence of the key in URL.RawQuery: a removal s[:p]+s[q:] whose position comes from a search over s is iterated (its result flows back to the searched string on a back edge, in place or through a helper), every exit of that loop is computed from the current string, the next search starts at 0 or at most at p (never past the place where the following pair now starts), the first search starts at 0, search/replace patterns begin with the pair delimiter '&', and strings.Replace has a negative count (rawquery-all-occurrences); each key changed in the parsed query (url.Values Del/Set/Add/index store) is a value the string stored to URL.RawQuery is computed from, so the two representations are edited with the same key (query-raw-sync), and conversely Request.Query - the cache of the parsed query that req_query_* conditions and all query actions share - is kept in step with the raw query: a request's URL.RawQuery is stored only by the four reviewed editors, each of them changes the map obtained from Request.Query (Set/Add/Del/index store, in place or through a helper) or drops the cache (Request.Query = nil), and every configured key/value its new raw query is computed from is an operand of such a change (query-cache-sync); header-value variables: the scanner that cuts %variable pieces out of a header value and the table of variables describe the same language - for every key k of mod_header.VariableHandlers, expectVariableParam(k) and expectVariableParam(k+\";x\") are len(k), splitParam(\"x=%k;y=%%z\") is lossless and contains the piece %k (decided by folding the calls at analysis time with an evaluator for pure string functions over SSA: integers, strings, booleans, string ranges, slices, calls of module functions and of strings/unicode predicates; nothing is executed), splitParam reaches that scanner (variable-scanner), and every %variable in the documentation table is a key of VariableHandlers (documented-variable); redirect Location: no value stored to RedirectInfo.Url anywhere in the program is computed (data flow through module helpers, parameters followed to their call sites) from the decoded URL.Path or url.PathUnescape/QueryUnescape unless it passes an escaper (redirect-no-decoded-path), and URL_PREFIX_ADD / SCHEME_SET store the configured string first and the escaped original URI of this request (URL.RequestURI(), or EscapedPath() with RawQuery) last, SCHEME_SET with the request's host in between (redirect-original-uri). Not covered: the remaining string semantics of the actions (offsets inside a removal such as where the value ends, host/path edits, percent-encoded or '='-less keys in QUERY_DEL* - known not to be matched by the raw edit, ReqHostSuffixReplace reading URL.Host, the URL built by bfe_server.Redirect for relative Locations), raw-query editors rewritten in a form other than search-and-remove / strings.Replace are reported as not followed, the values the variable handlers produce and the case-folding of variable names (preProcessParams lower-cases for the check, getHeaderValue does not), a variable scanner written with constructs the evaluator does not follow (maps, interfaces, closures with captured variables, byte slices) is reported as undecided, query-cache-sync does not decide that Set vs Add is chosen correctly for repeated keys, that mod_header's actionConvert keeps the checked parameter count (reviewed: it never shortens Params).",
+			RuleText:    "obligations = each command x executor wiring; each header-direction selector; each Action* constant x {Do arm, checker}; each accepted command x executor tables; each allow-list key; each documented action; each (function, Params[k], reaching command set); each loader's check-before-use; each key-editing query command x all-occurrences constructs; each parsed-query mutation x raw store; each raw-query editor x {cache changed or dropped, each configured key}; each store to a request's URL.RawQuery; each VariableHandlers key x {scanner, splitter}; each documented variable; each store to RedirectInfo.Url; each original-uri redirect command",
 			Assumptions: []string{"actions reach executors only through the loaders analysed (Action values are built by UnmarshalJSON / actionConvert)", "mod_header.actionConvert does not shorten Params"},
 		},
 		Run: runC49,
@@ -768,6 +768,19 @@ func init() {
 			{Name: "del-raw-edit-uses-other-key", File: "bfe_basic/action/action_query.go", Old: "\t\t\t// find key start &key=\n\t\t\tstart := strings.Index(rawQuery, \"&\"+key+\"=\")", New: "\t\t\t// find key start &key=\n\t\t\tstart := strings.Index(rawQuery, \"&\"+keys[0]+\"=\")", Expect: "query-raw-sync|ReqQueryDel:"},
 			{Name: "silent-query-del-loop-in-helper", File: "bfe_basic/action/action_query.go", Old: "\t\tqueries.Del(key)\n\n\t\tfor {\n\t\t\t// find key start &key=\n\t\t\tstart := strings.Index(rawQuery, \"&\"+key+\"=\")\n\t\t\tif start == -1 {\n\t\t\t\tbreak\n\t\t\t}\n\n\t\t\t// find value end\n\t\t\tend := strings.Index(rawQuery[start+1:], \"&\")\n\t\t\tif end == -1 {\n\t\t\t\tbreak\n\t\t\t}\n\n\t\t\t// remove start:start+end part\n\t\t\trawQuery = rawQuery[:start] + rawQuery[start+end+1:]\n\t\t}\n\t}\n\n\t// set rawQuery, remove \"&\" prefix and suffix\n\tif len(rawQuery) == 1 {\n\t\treq.HttpRequest.URL.RawQuery = \"\"\n\t} else {\n\t\treq.HttpRequest.URL.RawQuery = rawQuery[1 : len(rawQuery)-1]\n\t}\n}\n\n// ReqQueryDelAllExcept deletes all keys from query, except some keys\n", New: "\t\tqueries.Del(key)\n\t\trawQuery = rawQueryDelKey(rawQuery, key)\n\t}\n\n\t// set rawQuery, remove \"&\" prefix and suffix\n\tif len(rawQuery) == 1 {\n\t\treq.HttpRequest.URL.RawQuery = \"\"\n\t} else {\n\t\treq.HttpRequest.URL.RawQuery = rawQuery[1 : len(rawQuery)-1]\n\t}\n}\n\n// rawQueryDelKey removes all pairs of key from rawQuery (\"&\" prefix and suffix).\nfunc rawQueryDelKey(rawQuery string, key string) string {\n\tpattern := \"&\" + key + \"=\"\n\toffset := 0\n\tfor {\n\t\tindex := strings.Index(rawQuery[offset:], pattern)\n\t\tif index == -1 {\n\t\t\tbreak\n\t\t}\n\t\tstart := offset + index\n\t\tend := strings.Index(rawQuery[start+1:], \"&\")\n\t\tif end == -1 {\n\t\t\tbreak\n\t\t}\n\t\trawQuery = rawQuery[:start] + rawQuery[start+end+1:]\n\t\toffset = start\n\t}\n\treturn rawQuery\n}\n\n// ReqQueryDelAllExcept deletes all keys from query, except some keys\n", Silent: true},
 			{Name: "silent-query-del-cut-in-helper", File: "bfe_basic/action/action_query.go", Old: "\t\t\t// remove start:start+end part\n\t\t\trawQuery = rawQuery[:start] + rawQuery[start+end+1:]\n\t\t}\n\t}\n\n\t// set rawQuery, remove \"&\" prefix and suffix\n\tif len(rawQuery) == 1 {\n\t\treq.HttpRequest.URL.RawQuery = \"\"\n\t} else {\n\t\treq.HttpRequest.URL.RawQuery = rawQuery[1 : len(rawQuery)-1]\n\t}\n}\n\n// ReqQueryDelAllExcept deletes all keys from query, except some keys\n", New: "\t\t\t// remove start:start+end part\n\t\t\trawQuery = rawQueryCutOne(rawQuery, start, end)\n\t\t}\n\t}\n\n\t// set rawQuery, remove \"&\" prefix and suffix\n\tif len(rawQuery) == 1 {\n\t\treq.HttpRequest.URL.RawQuery = \"\"\n\t} else {\n\t\treq.HttpRequest.URL.RawQuery = rawQuery[1 : len(rawQuery)-1]\n\t}\n}\n\nfunc rawQueryCutOne(s string, start int, end int) string {\n\treturn s[:start] + s[start+end+1:]\n}\n\n// ReqQueryDelAllExcept deletes all keys from query, except some keys\n", Silent: true},
+			{Name: "query-del-cache-not-updated", File: "bfe_basic/action/action_query.go", Old: "\t\tqueries.Del(key)\n\n\t\tfor {", New: "\t\t_ = queries\n\n\t\tfor {", Expect: "query-cache-sync|ReqQueryDel:mutates-cache"},
+			{Name: "rename-edits-private-copy", File: "bfe_basic/action/action_query.go", Old: "\tqueries := queryParse(req)\n\n\t// renanme query key", New: "\tqueries := req.HttpRequest.URL.Query()\n\n\t// renanme query key", Expect: "query-cache-sync|ReqQueryRename:mutates-cache"},
+			{Name: "rename-new-key-not-cached", File: "bfe_basic/action/action_query.go", Old: "\tqueries[newName] = values\n", New: "\t_ = values\n", Expect: "query-cache-sync|ReqQueryRename:key#1"},
+			{Name: "query-add-raw-only", File: "bfe_basic/action/action_query.go", Old: "\t\t// try to get value of given key\n\t\toldValue := queries.Get(key)\n\n\t\tif oldValue == \"\" {\n\t\t\t// key not exist, use Set()\n\t\t\tqueries.Set(key, value)\n\t\t} else {\n\t\t\t// key exist, use Add()\n\t\t\tqueries.Add(key, value)\n\t\t}\n", New: "\t\t_ = queries\n", Expect: "query-cache-sync|ReqQueryAdd:mutates-cache"},
+			{Name: "path-set-clears-raw-query", File: "bfe_basic/action/action_path.go", Old: "\thttpReq.URL.Path = path\n}\n\n// ReqPathPrefixAdd adds", New: "\thttpReq.URL.Path = path\n\thttpReq.URL.RawQuery = \"\"\n}\n\n// ReqPathPrefixAdd adds", Expect: "query-cache-sync|writers|bfe_basic/action.ReqPathSet"},
+			{Name: "silent-query-add-drops-cache", File: "bfe_basic/action/action_query.go", Old: "\t\t// try to get value of given key\n\t\toldValue := queries.Get(key)\n\n\t\tif oldValue == \"\" {\n\t\t\t// key not exist, use Set()\n\t\t\tqueries.Set(key, value)\n\t\t} else {\n\t\t\t// key exist, use Add()\n\t\t\tqueries.Add(key, value)\n\t\t}\n", New: "\t\t_ = queries\n\t\treq.Query = nil\n", Silent: true},
+			{Name: "variable-charset-without-digits", File: "bfe_modules/mod_header/action.go", Old: "const variableCharset = \"abcdefghijklmnopqrstuvwxyz0123456789_\"", New: "const variableCharset = \"abcdefghijklmnopqrstuvwxyz_\"", Expect: "variable-scanner|name:bfe_ssl_ja3_raw"},
+			{Name: "variable-scan-skips-instead-of-stopping", File: "bfe_modules/mod_header/action.go", Old: "\t\tif !strings.Contains(variableCharset, string(c)) {\n\t\t\tbreak\n\t\t}\n", New: "\t\tif !strings.Contains(variableCharset, string(c)) {\n\t\t\tcontinue\n\t\t}\n", Expect: "variable-scanner|name:bfe_vip"},
+			{Name: "variable-piece-runs-to-next-percent", File: "bfe_modules/mod_header/action.go", Old: "\t\t\t\t// variable param\n\t\t\t\tindex += expectVariableParam(param[index:])", New: "\t\t\t\t// variable param\n\t\t\t\tindex += expectPercent(param[index:])", Expect: "variable-scanner|split:bfe_vip"},
+			{Name: "escape-piece-loses-a-byte", File: "bfe_modules/mod_header/action.go", Old: "\t\tparams = append(params, param[paramBegin:index])\n", New: "\t\tif index-paramBegin > 1 && param[paramBegin+1] == '%' {\n\t\t\tparamBegin++\n\t\t}\n\t\tparams = append(params, param[paramBegin:index])\n", Expect: "variable-scanner|split:bfe_vip"},
+			{Name: "documented-variable-renamed-in-table", File: "bfe_modules/mod_header/action_header_var.go", Old: "\t\"bfe_ssl_ja3_raw\":", New: "\t\"bfe_ssl_ja3raw\":", Expect: "documented-variable|docs/en_us/modules/mod_header/mod_header.md:%bfe_ssl_ja3_raw"},
+			{Name: "silent-query-add-cache-update-in-helper", File: "bfe_basic/action/action_query.go", Old: "\t\t// try to get value of given key\n\t\toldValue := queries.Get(key)\n\n\t\tif oldValue == \"\" {\n\t\t\t// key not exist, use Set()\n\t\t\tqueries.Set(key, value)\n\t\t} else {\n\t\t\t// key exist, use Add()\n\t\t\tqueries.Add(key, value)\n\t\t}\n\n\t\taddQueryString = addQueryString + \"&\" + key + \"=\" + value\n\t}\n\n\t// add rawQuery directly\n\tif req.HttpRequest.URL.RawQuery == \"\" {\n\t\t// if RawQuery is empty, remove prefix \"&\"\n\t\treq.HttpRequest.URL.RawQuery = addQueryString[1:]\n\t} else {\n\t\treq.HttpRequest.URL.RawQuery += addQueryString\n\t}\n}\n\n", New: "\t\tcachedQueryAdd(queries, key, value)\n\n\t\taddQueryString = addQueryString + \"&\" + key + \"=\" + value\n\t}\n\n\t// add rawQuery directly\n\tif req.HttpRequest.URL.RawQuery == \"\" {\n\t\t// if RawQuery is empty, remove prefix \"&\"\n\t\treq.HttpRequest.URL.RawQuery = addQueryString[1:]\n\t} else {\n\t\treq.HttpRequest.URL.RawQuery += addQueryString\n\t}\n}\n\n// cachedQueryAdd adds (key, value) to the parsed query.\nfunc cachedQueryAdd(queries url.Values, key string, value string) {\n\tif queries.Get(key) == \"\" {\n\t\tqueries.Set(key, value)\n\t} else {\n\t\tqueries.Add(key, value)\n\t}\n}\n\n", Silent: true},
+			{Name: "silent-variable-scanner-byte-loop", File: "bfe_modules/mod_header/action.go", Old: "\tfor _, c := range str {\n\t\tif !strings.Contains(variableCharset, string(c)) {\n\t\t\tbreak\n\t\t}\n\t\tindex++\n\t}\n\n\treturn index\n}\n", New: "\tfor index < len(str) && isVariableChar(str[index]) {\n\t\tindex++\n\t}\n\n\treturn index\n}\n\nfunc isVariableChar(c byte) bool {\n\treturn (c >= 'a' && c <= 'z') || (c >= '0' && c <= '9') || c == '_'\n}\n", Silent: true},
 			{Name: "scheme-set-decoded-path", File: "bfe_modules/mod_redirect/action_url.go", Old: "\turi := rawUrl.RequestURI()\n\n\thost := rawUrl.Host", New: "\turi := rawUrl.Path\n\n\thost := rawUrl.Host", Expect: "redirect-no-decoded-path|bfe_modules/mod_redirect.ReqSchemeSet"},
 			{Name: "prefix-add-uri-first", File: "bfe_modules/mod_redirect/action_url.go", Old: "req.Redirect.Url = prefix + uri", New: "req.Redirect.Url = uri + prefix", Expect: "redirect-original-uri|URL_PREFIX_ADD"},
 			{Name: "scheme-set-drops-host", File: "bfe_modules/mod_redirect/action_url.go", Old: "req.Redirect.Url = scheme + \"://\" + host + uri", New: "_ = host\n\treq.Redirect.Url = scheme + \"://\" + uri", Expect: "redirect-original-uri|SCHEME_SET"},
@@ -1091,7 +1104,9 @@ func runC49(c *core.Ctx) {
 
 	mdC49Wiring(c, am, hm, rm)
 	mdC49QueryEffects(c)
+	mdC49QueryCache(c)
 	mdC49RedirectEffects(c)
+	mdC49HeaderVariables(c)
 }
 
 // mdC49Wiring decides that each command's arm calls the executor the
